@@ -21,6 +21,8 @@ pub enum COp {
     Evict,
     Clear,
     Adjust { high: u8, low: u8 },
+    /// many small distinct entries: several of them share one of the cache's 16384 buckets
+    Fill { n: u16, bytes: u16, tag: u8 },
 }
 
 pub fn strategy(max: usize) -> BoxedStrategy<Vec<COp>> {
@@ -31,6 +33,7 @@ pub fn strategy(max: usize) -> BoxedStrategy<Vec<COp>> {
         2 => Just(COp::Evict),
         1 => Just(COp::Clear),
         2 => (0u8..5, 0u8..4).prop_map(|(high, low)| COp::Adjust { high, low }),
+        1 => (300u16..3500, 100u16..1500, 0u8..4).prop_map(|(n, bytes, tag)| COp::Fill { n, bytes, tag }),
     ];
     proptest::collection::vec(op, 1..max).boxed()
 }
@@ -40,6 +43,7 @@ pub struct CNotes {
     pub evicting_pass_with_survivor: bool,
     pub passes: u32,
     pub removes_then_miss: u32,
+    pub fills: u32,
 }
 
 fn key_of(k: u8) -> Vec<u8> {
@@ -125,9 +129,16 @@ pub fn run_ops(ops: &[COp], notes: &mut CNotes) -> Result<(), String> {
     for (i, op) in ops.iter().enumerate() {
         let what = format!("op {i} {op:?}");
         match *op {
-            COp::Insert { key, kb, fill } => {
-                let k = key_of(key);
-                let v = vec![fill; kb as usize * 1024 + key as usize];
+            COp::Insert { .. } | COp::Fill { .. } => {
+                let pairs: Vec<(Vec<u8>, Vec<u8>)> = match *op {
+                    COp::Insert { key, kb, fill } => vec![(key_of(key), vec![fill; kb as usize * 1024 + key as usize])],
+                    COp::Fill { n, bytes, tag } => {
+                        notes.fills += 1;
+                        (0..n).map(|i| (format!("fill-{tag}-{i:05}").into_bytes(), vec![tag; bytes as usize + (i % 7) as usize])).collect()
+                    }
+                    _ => unreachable!(),
+                };
+                for (k, v) in pairs {
                 let overhead = m.overhead;
                 let before_usage = stats.cache_memory.load(Ordering::Relaxed);
                 cache.insert(k.clone(), Bytes::from(v.clone()));
@@ -186,6 +197,7 @@ pub fn run_ops(ops: &[COp], notes: &mut CNotes) -> Result<(), String> {
                     }
                     m.entries.insert(k.clone(), (v, size, true));
                     removed_pending.retain(|r| r != &k);
+                }
                 }
             }
             COp::Get { key } => {
@@ -264,6 +276,8 @@ pub fn campaign(tier: crate::env::Tier, seed: u64) -> (i32, serde_json::Value) {
     let passes = Arc::new(AtomicU64::new(0));
     let misses = Arc::new(AtomicU64::new(0));
     let sample = Arc::new(Mutex::new(None::<String>));
+    let fills = Arc::new(AtomicU64::new(0));
+    let f2 = fills.clone();
     let (e2, n2, p2, m2, s2) = (evaluations.clone(), nt.clone(), passes.clone(), misses.clone(), sample.clone());
     let check = move |ops: &Vec<COp>, counting: bool| -> Result<(), String> {
         let mut notes = CNotes::default();
@@ -272,6 +286,7 @@ pub fn campaign(tier: crate::env::Tier, seed: u64) -> (i32, serde_json::Value) {
             e2.fetch_add(1, Ordering::Relaxed);
             p2.fetch_add(notes.passes as u64, Ordering::Relaxed);
             m2.fetch_add(notes.removes_then_miss as u64, Ordering::Relaxed);
+            f2.fetch_add(notes.fills as u64, Ordering::Relaxed);
             if notes.evicting_pass_with_survivor {
                 let fp = crate::env::fnv(format!("{ops:?}").as_bytes());
                 if n2.lock().unwrap().insert(fp) {
@@ -298,9 +313,10 @@ pub fn campaign(tier: crate::env::Tier, seed: u64) -> (i32, serde_json::Value) {
     let summary = serde_json::json!({
         "sequences": evaluations.load(Ordering::Relaxed),
         "distinct_nontrivial": nt.lock().unwrap().len(),
-        "rule": "proptest sequences of insert (1-900 KB values) / get / remove / evict_entries / clear / adjust_watermarks(0-4 MB, 0-3 MB) on a ClockCache with 3 MB / 1 MB watermarks; after every call reported memory == bytes held == mirror; a remove is never followed by a hit; every eviction pass (explicit, by insert, by adjust) ends at or below the low watermark, evicts no referenced entry when the unreferenced ones suffice, and does not overshoot by a whole entry. Non-trivial: a pass that evicted an entry while a referenced entry survived.",
+        "rule": "proptest sequences of insert (1-900 KB values) / fill (300-3500 distinct entries of 100-1500 B, so several entries share one of the 16384 buckets and one bucket visit evicts more than one) / get / remove / evict_entries / clear / adjust_watermarks(0-4 MB, 0-3 MB) on a ClockCache with 3 MB / 1 MB watermarks; after every call reported memory == bytes held == mirror; a remove is never followed by a hit; every eviction pass (explicit, by insert, by adjust) ends at or below the low watermark, evicts no referenced entry when the unreferenced ones suffice, and does not overshoot by a whole entry. Non-trivial: a pass that evicted an entry while a referenced entry survived.",
         "eviction_passes": passes.load(Ordering::Relaxed),
         "misses_after_remove": misses.load(Ordering::Relaxed),
+        "fills_of_many_small_entries": fills.load(Ordering::Relaxed),
         "sample": sample.lock().unwrap().clone(),
         "failure": failure,
     });
